@@ -9,6 +9,7 @@ Line-protocol driver for the scheduling models (C08 / C10).  One input line -> o
   run prio <factor num/den> <draw num/den>               priority loop                   -> log
   dq pop <len> <pos>        deque_pop on [0..len-1]                -> `e <x> <rest>` | `err IndexError`
   dq find <len> <x> <rm>    queue_find(key = (== x))               -> `some <x> <rest>` | `none`
+  dq findmod <len> <m> <r> <rm>   queue_find(key = (% m == r)): several matches, the last one wins
   dq remove <len> <x>       queue_remove                           -> `ok <rest>` | `err ValueError`
   dq callpos <len> <pos>    call_pos(pos, new handle <len>)        -> `ok <list>`
 
@@ -84,6 +85,13 @@ def stepDq (args : List String) : String :=
       | (none, _) => "none"
       | (some h, r) => s!"some {h} {showList r}"
     | _, _ => "bad-op"
+  | ["findmod", n, m, r, rm] =>
+    match n.toNat?, m.toNat?, r.toNat? with
+    | some n, some m, some r =>
+      match Deque.queueFind (List.range n) (fun x => x % m == r) (rm == "1") with
+      | (none, _) => "none"
+      | (some h, r) => s!"some {h} {showList r}"
+    | _, _, _ => "bad-op"
   | ["remove", n, x] =>
     match n.toNat?, x.toNat? with
     | some n, some x =>
